@@ -3,11 +3,633 @@ From Coq Require Import List Arith Bool Lia.
 From HV Require Import Spec.ByteVecSpec Model.ByteVecModel.
 Import ListNotations.
 
+Scheme wfc_mind := Minimality for wfc Sort Prop
+  with wfl_mind := Minimality for wfl Sort Prop.
+Combined Scheme wf_mutind from wfc_mind, wfl_mind.
+
+(* ------------------------------------------------------------------ list facts *)
+
+Section ListFacts.
+Variable A : Type.
+
+Lemma firstn_eq_len : forall (l1 l2 : list A) n, n = length l1 -> firstn n (l1 ++ l2) = l1.
+Proof.
+  intros l1 l2 n ->. rewrite firstn_app, Nat.sub_diag, firstn_all. cbn. apply app_nil_r.
+Qed.
+
+Lemma skipn_eq_len : forall (l1 l2 : list A) n, n = length l1 -> skipn n (l1 ++ l2) = l2.
+Proof.
+  intros l1 l2 n ->. rewrite skipn_app, Nat.sub_diag, skipn_all. reflexivity.
+Qed.
+
+(* P ++ X ++ R split inside X *)
+Lemma firstn_mid : forall (P X R : list A) n,
+  length P <= n <= length P + length X ->
+  firstn n (P ++ X ++ R) = P ++ firstn (n - length P) X.
+Proof.
+  intros P X R n H. rewrite firstn_app. rewrite firstn_all2 by lia.
+  f_equal. rewrite firstn_app. replace (n - length P - length X) with 0 by lia.
+  cbn. apply app_nil_r.
+Qed.
+
+Lemma skipn_mid : forall (P X R : list A) n,
+  length P <= n <= length P + length X ->
+  skipn n (P ++ X ++ R) = skipn (n - length P) X ++ R.
+Proof.
+  intros P X R n H. rewrite skipn_app. rewrite skipn_all2 by lia. cbn.
+  rewrite skipn_app. replace (n - length P - length X) with 0 by lia. reflexivity.
+Qed.
+
+Lemma nth_firstn_lt : forall (l : list A) n i d, i < n -> nth i (firstn n l) d = nth i l d.
+Proof.
+  induction l as [|x l IH]; intros n i d H.
+  - rewrite firstn_nil. reflexivity.
+  - destruct n; [lia|]. destruct i; cbn; [reflexivity|]. apply IH. lia.
+Qed.
+
+Lemma nth_skipn' : forall (l : list A) n i d, nth i (skipn n l) d = nth (n + i) l d.
+Proof.
+  induction l as [|x l IH]; intros n i d.
+  - rewrite skipn_nil. destruct i, n; reflexivity.
+  - destruct n; cbn; [reflexivity|]. apply IH.
+Qed.
+
+Lemma skipn_skipn' : forall (l : list A) x y, skipn x (skipn y l) = skipn (y + x) l.
+Proof.
+  intros l x y. revert l. induction y as [|y IH]; intros l; [reflexivity|].
+  destruct l; [rewrite !skipn_nil; reflexivity|]. cbn. apply IH.
+Qed.
+
+Lemma flat_map_app' : forall (C : Type) (f : A -> list C) l1 l2,
+  flat_map f (l1 ++ l2) = flat_map f l1 ++ flat_map f l2.
+Proof. intros. apply flat_map_app. Qed.
+
+End ListFacts.
+
 Section Proofs.
 Variable B : Type.
 Variable zero : B.
 
-Lemma flat_empty : flat (@empty B) = [].
+Notation chunk := (chunk B).
+Notation bvec := (bvec B).
+Notation cget := (cget B zero).
+Notation cslice := (cslice B zero).
+Notation csub := (csub B zero).
+Notation bslice := (bslice B zero).
+Notation get_byte := (get_byte B zero).
+Notation set_byte := (set_byte B zero).
+Notation set_slice := (set_slice B zero).
+Notation set_word := (set_word B zero).
+Notation zeros_chunk := (zeros_chunk B zero).
+Notation zeros := (zeros B zero).
+Notation fa_slice := (fa_slice B zero).
+Notation fa_set_byte := (fa_set_byte B zero).
+Notation fa_set_slice := (fa_set_slice B zero).
+
+Definition flatl (cs : list (nat * chunk)) : list B := flat_map (fun kc => cflat (snd kc)) cs.
+
+Lemma flatl_app : forall l1 l2, flatl (l1 ++ l2) = flatl l1 ++ flatl l2.
+Proof. intros. apply flat_map_app. Qed.
+
+Lemma flatl_cons : forall k c r, flatl ((k, c) :: r) = cflat c ++ flatl r.
 Proof. reflexivity. Qed.
+
+Lemma cflat_nest : forall t cs len, cflat (Nest t cs len) = flatl cs.
+Proof. reflexivity. Qed.
+
+Lemma flat_flatl : forall v : bvec, flat v = flatl (chunks v).
+Proof. reflexivity. Qed.
+
+(* ------------------------------------------------------------------ wf basics *)
+
+Lemma wf_lengths :
+  (forall c : chunk, wfc c -> length (cflat c) = clen c) /\
+  (forall b (cs : list (nat * chunk)) e, wfl b cs e -> b <= e /\ length (flatl cs) = e - b).
+Proof.
+  apply wf_mutind.
+  - intros sym d s l H. cbn. rewrite firstn_length, skipn_length. lia.
+  - intros tag cs len _ [_ H]. rewrite cflat_nest. cbn. lia.
+  - intros b. cbn. lia.
+  - intros b c r e Hpos _ Hc _ [Hle Hr]. rewrite flatl_cons, app_length. lia.
+Qed.
+
+Lemma cflat_length : forall c : chunk, wfc c -> length (cflat c) = clen c.
+Proof. apply wf_lengths. Qed.
+
+Lemma wfl_le : forall b (cs : list (nat * chunk)) e, wfl b cs e -> b <= e.
+Proof. intros. eapply wf_lengths; eauto. Qed.
+
+Lemma flatl_length : forall b (cs : list (nat * chunk)) e, wfl b cs e -> length (flatl cs) = e - b.
+Proof. intros. eapply wf_lengths; eauto. Qed.
+
+Lemma flat_length : forall v : bvec, wf v -> length (flat v) = blen v.
+Proof. intros v H. rewrite flat_flatl, (flatl_length _ _ _ H). lia. Qed.
+
+Lemma wfl_cons_inv : forall b k (c : chunk) r e,
+  wfl b ((k, c) :: r) e -> k = b /\ 0 < clen c /\ wfc c /\ wfl (b + clen c) r e.
+Proof. intros b k c r e H. inversion H; subst. auto. Qed.
+
+Lemma wfl_nil_inv : forall b e, wfl b ([] : list (nat * chunk)) e -> e = b.
+Proof. intros b e H. inversion H; subst. auto. Qed.
+
+Lemma wfl_app : forall (l1 l2 : list (nat * chunk)) b m e, wfl b l1 m -> wfl m l2 e -> wfl b (l1 ++ l2) e.
+Proof.
+  induction l1 as [|[k c] r IH]; intros l2 b m e H1 H2.
+  - inversion H1; subst. exact H2.
+  - inversion H1; subst. cbn. constructor; auto. eapply IH; eauto.
+Qed.
+
+Lemma wfl_app_inv : forall (l1 l2 : list (nat * chunk)) b e,
+  wfl b (l1 ++ l2) e -> exists m, wfl b l1 m /\ wfl m l2 e.
+Proof.
+  induction l1 as [|[k c] r IH]; intros l2 b e H.
+  - exists b. split; [constructor | exact H].
+  - cbn [app] in H. apply wfl_cons_inv in H. destruct H as [-> [Hp [Hc Hr]]].
+    destruct (IH _ _ _ Hr) as [m [Ha Hb]].
+    exists m. split; [constructor; auto | exact Hb].
+Qed.
+
+Lemma wfl_single : forall b (c : chunk), wfc c -> 0 < clen c -> wfl b [(b, c)] (b + clen c).
+Proof. intros. constructor; auto. constructor. Qed.
+
+Definition keys_lt (k : nat) (l : list (nat * chunk)) : Prop := Forall (fun kc => fst kc < k) l.
+Definition keys_ge (k : nat) (l : list (nat * chunk)) : Prop := Forall (fun kc => k <= fst kc) l.
+
+Lemma wfl_keys_ge : forall b (cs : list (nat * chunk)) e, wfl b cs e -> keys_ge b cs.
+Proof.
+  intros b cs. revert b. induction cs as [|[k c] r IH]; intros b e H; constructor.
+  - inversion H; subst. cbn. lia.
+  - inversion H; subst. eapply Forall_impl; [| eapply IH; eauto]. cbn. intros; lia.
+Qed.
+
+Lemma wfl_keys_lt : forall b (cs : list (nat * chunk)) e, wfl b cs e -> keys_lt e cs.
+Proof.
+  intros b cs. revert b. induction cs as [|[k c] r IH]; intros b e H; constructor.
+  - apply wfl_cons_inv in H. destruct H as [-> [Hp [Hc Hr]]]. cbn [fst]. apply wfl_le in Hr. lia.
+  - apply wfl_cons_inv in H. destruct H as [-> [Hp [Hc Hr]]]. eapply IH; eauto.
+Qed.
+
+Lemma keys_lt_weaken : forall k k' l, keys_lt k l -> k <= k' -> keys_lt k' l.
+Proof. intros k k' l H Hle. eapply Forall_impl; [| exact H]. cbn. intros; lia. Qed.
+
+Lemma keys_ge_weaken : forall k k' l, keys_ge k l -> k' <= k -> keys_ge k' l.
+Proof. intros k k' l H Hle. eapply Forall_impl; [| exact H]. cbn. intros; lia. Qed.
+
+Lemma keys_lt_app : forall k l1 l2, keys_lt k l1 -> keys_lt k l2 -> keys_lt k (l1 ++ l2).
+Proof. intros. apply Forall_app; auto. Qed.
+
+(* ------------------------------------------------------------------ SortedDict *)
+
+Lemma sd_set_mid : forall key (c : chunk) A R m,
+  keys_lt key A -> keys_ge m R -> key < m ->
+  sd_set key c (A ++ R) = A ++ (key, c) :: R.
+Proof.
+  induction A as [|[k' c'] A IH]; intros R m HA HR Hlt.
+  - cbn [app]. destruct R as [|[k2 c2] R2]; [reflexivity|].
+    inversion HR; subst. cbn [fst] in H1. cbn [sd_set].
+    destruct (key <? k2) eqn:E; [reflexivity|]. apply Nat.ltb_ge in E. lia.
+  - inversion HA; subst. cbn [fst] in H1. cbn [sd_set app].
+    destruct (key <? k') eqn:E1; [apply Nat.ltb_lt in E1; lia|].
+    destruct (key =? k') eqn:E2; [apply Nat.eqb_eq in E2; lia|].
+    f_equal. eapply IH; eauto.
+Qed.
+
+Lemma sd_set_repl : forall key (c c0 : chunk) A R,
+  keys_lt key A -> sd_set key c (A ++ (key, c0) :: R) = A ++ (key, c) :: R.
+Proof.
+  induction A as [|[k' c'] A IH]; intros R HA.
+  - cbn [sd_set app]. rewrite Nat.ltb_irrefl, Nat.eqb_refl. reflexivity.
+  - inversion HA; subst. cbn [fst] in H1. cbn [sd_set app].
+    destruct (key <? k') eqn:E1; [apply Nat.ltb_lt in E1; lia|].
+    destruct (key =? k') eqn:E2; [apply Nat.eqb_eq in E2; lia|].
+    f_equal. eapply IH; eauto.
+Qed.
+
+(* an optional chunk: what __set_chunk adds *)
+Definition opt (k : nat) (c : chunk) : list (nat * chunk) :=
+  if clen c =? 0 then [] else [(k, c)].
+
+Lemma opt_wfl : forall k c, wfc c -> wfl k (opt k c) (k + clen c).
+Proof.
+  intros k c H. unfold opt. destruct (clen c =? 0) eqn:E.
+  - apply Nat.eqb_eq in E. rewrite E, Nat.add_0_r. constructor.
+  - apply Nat.eqb_neq in E. apply wfl_single; auto. lia.
+Qed.
+
+Lemma opt_flatl : forall k c, wfc c -> flatl (opt k c) = cflat c.
+Proof.
+  intros k c H. unfold opt. destruct (clen c =? 0) eqn:E.
+  - apply Nat.eqb_eq in E. pose proof (cflat_length c H) as HL. rewrite E in HL.
+    destruct (cflat c); [reflexivity | discriminate].
+  - cbn. apply app_nil_r.
+Qed.
+
+Lemma set_chunk_mid : forall key c A R m,
+  keys_lt key A -> keys_ge m R -> key < m ->
+  set_chunk (A ++ R) key c = A ++ opt key c ++ R.
+Proof.
+  intros. unfold set_chunk, opt. destruct (clen c =? 0); [reflexivity|].
+  cbn. eapply sd_set_mid; eauto.
+Qed.
+
+(* ------------------------------------------------------------------ _load_chunk *)
+
+Definition next_le (r : list (nat * chunk)) (off : nat) : bool :=
+  match r with (k2, _) :: _ => k2 <=? off | [] => false end.
+
+Lemma find_chunk_cons : forall k (c : chunk) r off i,
+  find_chunk ((k, c) :: r) off i =
+  if next_le r off then find_chunk r off (S i) else Some (i, k, c).
+Proof. reflexivity. Qed.
+
+Lemma next_le_wfl : forall b (r : list (nat * chunk)) e off, wfl b r e ->
+  next_le r off = match r with [] => false | _ => b <=? off end.
+Proof. intros b r e off H. inversion H; subst; reflexivity. Qed.
+
+Lemma find_chunk_spec : forall b (cs : list (nat * chunk)) e, wfl b cs e -> forall off i, b <= off < e ->
+  exists A k c R,
+    cs = A ++ (k, c) :: R /\ find_chunk cs off i = Some (i + length A, k, c) /\
+    k <= off < k + clen c /\ wfl b A k /\ wfc c /\ 0 < clen c /\ wfl (k + clen c) R e.
+Proof.
+  intros b cs e H. induction H as [b | b c r e Hpos Hc Hr IH]; intros off i Hoff.
+  - lia.
+  - rewrite find_chunk_cons, (next_le_wfl _ _ _ off Hr).
+    destruct r as [|[k2 c2] r2].
+    + inversion Hr; subst.
+      exists [], b, c, []. cbn [app length]. rewrite Nat.add_0_r.
+      repeat split; auto; try lia; constructor.
+    + assert (k2 = b + clen c) by (inversion Hr; auto). subst k2.
+      destruct (b + clen c <=? off) eqn:E.
+      * apply Nat.leb_le in E.
+        destruct (IH off (S i)) as [A [k [c' [R [Heq [Hf [Hk [HA [Hc' [Hp HR]]]]]]]]]]; [lia|].
+        exists ((b, c) :: A), k, c', R. cbn [app length].
+        rewrite Hf, Heq. repeat split; auto; try lia.
+        -- f_equal. f_equal. f_equal. lia.
+        -- constructor; auto.
+      * apply Nat.leb_gt in E.
+        exists [], b, c, ((b + clen c, c2) :: r2). cbn [app length]. rewrite Nat.add_0_r.
+        repeat split; auto; try lia; constructor.
+Qed.
+
+(* chunks entirely below the offset are skipped *)
+Lemma find_chunk_skip : forall (A : list (nat * chunk)) b m, wfl b A m -> forall c R off i, m <= off ->
+  find_chunk (A ++ (m, c) :: R) off i = find_chunk ((m, c) :: R) off (i + length A).
+Proof.
+  intros A b m H. induction H as [b | b c0 r e Hpos Hc Hr IH]; intros c R off i Hoff.
+  - cbn [app length]. rewrite Nat.add_0_r. reflexivity.
+  - cbn [app]. rewrite find_chunk_cons.
+    assert (Hnext : next_le (r ++ (e, c) :: R) off = true).
+    { destruct r as [|[k2 c2] r2]; cbn [app next_le].
+      - inversion Hr; subst. apply Nat.leb_le. lia.
+      - apply wfl_cons_inv in Hr. destruct Hr as [-> [Hp [Hc2 Hr]]]. apply wfl_le in Hr. apply Nat.leb_le. lia. }
+    rewrite Hnext. rewrite IH by lia. cbn [length]. f_equal. lia.
+Qed.
+
+(* ------------------------------------------------------------------ get_byte *)
+
+Definition cget_go (off : nat) : list (nat * chunk) -> B :=
+  fix go (l : list (nat * chunk)) : B :=
+    match l with
+    | [] => zero
+    | (k, c') :: r =>
+        if (match r with (k2, _) :: _ => k2 <=? off | [] => false end)
+        then go r
+        else cget c' (off - k)
+    end.
+
+Lemma cget_nest : forall t cs len off,
+  cget (Nest t cs len) off = if len <=? off then zero else cget_go off cs.
+Proof. reflexivity. Qed.
+
+Lemma cget_go_cons : forall off k (c : chunk) r,
+  cget_go off ((k, c) :: r) = if next_le r off then cget_go off r else cget c (off - k).
+Proof. reflexivity. Qed.
+
+Lemma cget_correct :
+  (forall c : chunk, wfc c -> forall off, off < clen c -> cget c off = nth off (cflat c) zero) /\
+  (forall b (cs : list (nat * chunk)) e, wfl b cs e -> forall off, b <= off < e ->
+      cget_go off cs = nth (off - b) (flatl cs) zero).
+Proof.
+  apply wf_mutind.
+  - intros sym d s l H off Hoff. cbn [clen] in Hoff. cbn [ByteVecModel.cget cflat].
+    rewrite nth_firstn_lt by lia. rewrite nth_skipn'. reflexivity.
+  - intros tag cs len _ IH off Hoff. rewrite cget_nest, cflat_nest. cbn in Hoff.
+    destruct (len <=? off) eqn:E; [apply Nat.leb_le in E; lia|].
+    rewrite IH by lia. rewrite Nat.sub_0_r. reflexivity.
+  - intros b off H. lia.
+  - intros b c r e Hpos Hc IHc Hr IHr off Hoff.
+    rewrite cget_go_cons, (next_le_wfl _ _ _ off Hr), flatl_cons.
+    pose proof (cflat_length c Hc) as HL.
+    destruct r as [|[k2 c2] r2].
+    + inversion Hr; subst. rewrite IHc by lia.
+      rewrite app_nth1 by lia. f_equal.
+    + assert (k2 = b + clen c) by (inversion Hr; auto). subst k2.
+      destruct (b + clen c <=? off) eqn:E.
+      * apply Nat.leb_le in E. rewrite IHr by lia.
+        rewrite app_nth2 by lia. f_equal. lia.
+      * apply Nat.leb_gt in E. rewrite IHc by lia.
+        rewrite app_nth1 by lia. reflexivity.
+Qed.
+
+Lemma get_byte_correct : forall v off, wf v -> get_byte v off = fa_get B zero (flat v) off.
+Proof.
+  intros v off H. unfold get_byte, as_chunk, fa_get. rewrite cget_nest.
+  destruct (blen v <=? off) eqn:E.
+  - apply Nat.leb_le in E. rewrite nth_overflow; [reflexivity|].
+    rewrite flat_length; auto.
+  - apply Nat.leb_gt in E.
+    rewrite (proj2 cget_correct _ _ _ H) by lia. rewrite Nat.sub_0_r. reflexivity.
+Qed.
+
+(* ------------------------------------------------------------------ leaves / append *)
+
+Definition flatc (ls : list chunk) : list B := flat_map (@cflat B) ls.
+
+Lemma flatc_app : forall l1 l2, flatc (l1 ++ l2) = flatc l1 ++ flatc l2.
+Proof. intros. apply flat_map_app. Qed.
+
+Definition leavesl (cs : list (nat * chunk)) : list chunk := flat_map (fun kc => leaves (snd kc)) cs.
+
+Lemma leaves_nest : forall t cs len, leaves (Nest t cs len) = leavesl cs.
+Proof. reflexivity. Qed.
+
+Lemma leaves_correct :
+  (forall c : chunk, wfc c -> Forall wfc (leaves c) /\ flatc (leaves c) = cflat c) /\
+  (forall b (cs : list (nat * chunk)) e, wfl b cs e ->
+      Forall wfc (leavesl cs) /\ flatc (leavesl cs) = flatl cs).
+Proof.
+  apply wf_mutind.
+  - intros sym d s l H. cbn [leaves]. split.
+    + constructor; [constructor; exact H | constructor].
+    + unfold flatc. cbn [flat_map]. apply app_nil_r.
+  - intros tag cs len _ IH. rewrite leaves_nest, cflat_nest. exact IH.
+  - intros b. split; [constructor | reflexivity].
+  - intros b c r e Hpos Hc [IH1 IH2] Hr [IH3 IH4]. unfold leavesl. cbn [flat_map snd].
+    split.
+    + apply Forall_app. split; assumption.
+    + rewrite flatc_app, flatl_cons. fold (leavesl r). rewrite IH2, IH4. reflexivity.
+Qed.
+
+Lemma sum_len_flatc : forall ls : list chunk, Forall wfc ls -> sum_len ls = length (flatc ls).
+Proof.
+  induction ls as [|c ls IH]; intros H.
+  - reflexivity.
+  - inversion H; subst. unfold flatc. cbn [sum_len fold_right flat_map].
+    rewrite app_length, cflat_length by assumption. f_equal. apply IH. assumption.
+Qed.
+
+Lemma zeros_chunk_wfc : forall n, wfc (zeros_chunk n).
+Proof. intros n. constructor. rewrite repeat_length. lia. Qed.
+
+Lemma zeros_chunk_flat : forall n, cflat (zeros_chunk n) = zeros n.
+Proof.
+  intros n. unfold zeros_chunk, ByteVecModel.zeros_chunk, zeros, ByteVecSpec.zeros. cbn [cflat skipn].
+  apply firstn_all2. rewrite repeat_length. lia.
+Qed.
+
+Lemma zeros_chunk_len : forall n, clen (zeros_chunk n) = n.
+Proof. reflexivity. Qed.
+
+Lemma append_leaf_correct : forall (v : bvec) (c : chunk), wf v -> wfc c ->
+  wf (append_leaf v c) /\ flat (append_leaf v c) = flat v ++ cflat c /\
+  blen (append_leaf v c) = blen v + clen c.
+Proof.
+  intros v c Hv Hc. unfold append_leaf. destruct (clen c =? 0) eqn:E.
+  - apply Nat.eqb_eq in E. pose proof (cflat_length c Hc) as HL. rewrite E in HL.
+    destruct (cflat c); [|discriminate]. rewrite app_nil_r, E, Nat.add_0_r. auto.
+  - apply Nat.eqb_neq in E. unfold wf, flat. cbn [chunks blen].
+    assert (Hs : sd_set (blen v) c (chunks v) = chunks v ++ [(blen v, c)]).
+    { rewrite <- (app_nil_r (chunks v)) at 1.
+      apply (sd_set_mid _ _ _ _ (S (blen v))); [eapply wfl_keys_lt; exact Hv | constructor | lia]. }
+    rewrite Hs. split; [|split; [|reflexivity]].
+    + eapply wfl_app; [exact Hv|]. apply wfl_single; [assumption | lia].
+    + fold (flatl (chunks v ++ [(blen v, c)])). rewrite flatl_app, flatl_cons. cbn [flatl flat_map].
+      rewrite app_nil_r. reflexivity.
+Qed.
+
+Lemma fold_append_leaf : forall (ls : list chunk) (v : bvec), wf v -> Forall wfc ls ->
+  wf (fold_left append_leaf ls v) /\
+  flat (fold_left append_leaf ls v) = flat v ++ flatc ls /\
+  blen (fold_left append_leaf ls v) = blen v + length (flatc ls).
+Proof.
+  induction ls as [|c ls IH]; intros v Hv Hls.
+  - cbn [fold_left]. unfold flatc. cbn [flat_map length]. rewrite app_nil_r, Nat.add_0_r. auto.
+  - inversion Hls; subst. cbn [fold_left].
+    destruct (append_leaf_correct v c Hv H1) as [Hw [Hf Hl]].
+    destruct (IH _ Hw H2) as [Hw2 [Hf2 Hl2]].
+    split; [exact Hw2|]. unfold flatc in *. cbn [flat_map]. rewrite Hf2, Hl2, Hf, Hl, app_length.
+    rewrite (cflat_length c H1). split; [apply app_assoc_reverse | lia].
+Qed.
+
+Lemma append_correct : forall (v : bvec) (c : chunk), wf v -> wfc c ->
+  wf (append v c) /\ flat (append v c) = flat v ++ cflat c /\ blen (append v c) = blen v + clen c.
+Proof.
+  intros v c Hv Hc. unfold append.
+  destruct (proj1 leaves_correct c Hc) as [Hl Hf].
+  destruct (fold_append_leaf (leaves c) v Hv Hl) as [H1 [H2 H3]].
+  rewrite Hf in H2, H3. rewrite (cflat_length c Hc) in H3. auto.
+Qed.
+
+Lemma wf_empty : wf (@empty B).
+Proof. constructor. Qed.
+
+Lemma from_leaves_correct : forall ls : list chunk, Forall wfc ls ->
+  wf (from_leaves ls) /\ flat (from_leaves ls) = flatc ls /\ blen (from_leaves ls) = length (flatc ls).
+Proof.
+  intros ls H. unfold from_leaves.
+  destruct (fold_append_leaf ls empty wf_empty H) as [H1 [H2 H3]]. auto.
+Qed.
+
+(* ------------------------------------------------------------------ slice *)
+
+Lemma firstn_repeat' : forall (x : B) k n, firstn k (repeat x n) = repeat x (Nat.min k n).
+Proof.
+  intros x k. induction k as [|k IH]; intros n; [reflexivity|].
+  destruct n; [reflexivity|]. cbn. f_equal. apply IH.
+Qed.
+
+Lemma firstn_cong : forall (l : list B) n m,
+  (n = m \/ (length l <= n /\ length l <= m)) -> firstn n l = firstn m l.
+Proof.
+  intros l n m [-> | [H1 H2]]; [reflexivity|]. rewrite !firstn_all2 by assumption. reflexivity.
+Qed.
+
+Lemma fa_slice_alt : forall l a b,
+  fa_slice l a b = firstn (b - a) (skipn a l) ++ zeros ((b - a) - length (firstn (b - a) (skipn a l))).
+Proof.
+  intros l a b. unfold fa_slice, ByteVecSpec.fa_slice. rewrite firstn_app. f_equal.
+  unfold zeros, ByteVecSpec.zeros. rewrite firstn_repeat'. f_equal.
+  rewrite firstn_length. lia.
+Qed.
+
+Lemma fa_slice_in : forall l a b, a <= b <= length l -> fa_slice l a b = firstn (b - a) (skipn a l).
+Proof.
+  intros l a b H. rewrite fa_slice_alt. rewrite firstn_length, skipn_length.
+  replace (b - a - Nat.min (b - a) (length l - a)) with 0 by lia. apply app_nil_r.
+Qed.
+
+Lemma fa_slice_length : forall l a b, length (fa_slice l a b) = b - a.
+Proof.
+  intros. unfold fa_slice, ByteVecSpec.fa_slice. rewrite firstn_length, app_length.
+  unfold ByteVecSpec.zeros. rewrite repeat_length. lia.
+Qed.
+
+Definition cslice_go (a b : nat) : list (nat * chunk) -> list chunk :=
+  fix go (l : list (nat * chunk)) : list chunk :=
+    match l with
+    | [] => []
+    | (k, c') :: r =>
+        if (match r with (k2, _) :: _ => k2 <=? a | [] => false end)
+        then go r
+        else if b <=? k then []
+        else
+          (if (a <=? k) && (k + clen c' <=? b)
+           then leaves c'
+           else cslice c' (a - k) (Nat.min (clen c') (b - k)))
+          ++ go r
+    end.
+
+Lemma cslice_nest : forall t cs len a b,
+  cslice (Nest t cs len) a b =
+  if b <=? a then []
+  else if len <=? a then [zeros_chunk (b - a)]
+  else
+    let parts := cslice_go a b cs in
+    let missing := (b - a) - sum_len parts in
+    if missing =? 0 then parts else parts ++ [zeros_chunk missing].
+Proof. reflexivity. Qed.
+
+Lemma cslice_go_cons : forall a b k (c : chunk) r,
+  cslice_go a b ((k, c) :: r) =
+  if next_le r a then cslice_go a b r
+  else if b <=? k then []
+  else (if (a <=? k) && (k + clen c <=? b) then leaves c
+        else cslice c (a - k) (Nat.min (clen c) (b - k))) ++ cslice_go a b r.
+Proof. reflexivity. Qed.
+
+Definition slice_ok (c : chunk) (a b : nat) : Prop :=
+  match c with Leaf _ _ _ l => a <= b <= l | Nest _ _ _ => True end.
+
+Lemma cslice_correct :
+  (forall c : chunk, wfc c -> forall a b, slice_ok c a b ->
+      Forall wfc (cslice c a b) /\ flatc (cslice c a b) = fa_slice (cflat c) a b) /\
+  (forall b0 (cs : list (nat * chunk)) e, wfl b0 cs e -> forall a b, a < b -> a < e ->
+      Forall wfc (cslice_go a b cs) /\
+      flatc (cslice_go a b cs) = firstn (b - Nat.max a b0) (skipn (a - b0) (flatl cs))).
+Proof.
+  apply wf_mutind.
+  - (* Leaf *)
+    intros sym d s l H a b Hok. cbn [slice_ok] in Hok. cbn [ByteVecModel.cslice]. split.
+    + constructor; [constructor; lia | constructor].
+    + unfold flatc. cbn [flat_map cflat]. rewrite app_nil_r.
+      rewrite fa_slice_in by (rewrite firstn_length, skipn_length; lia).
+      rewrite skipn_firstn_comm, firstn_firstn, skipn_skipn'.
+      replace (Nat.min (b - a) (l - a)) with (b - a) by lia. reflexivity.
+  - (* Nest *)
+    intros tag cs len Hwf IH a b _. rewrite cslice_nest, cflat_nest.
+    pose proof (flatl_length _ _ _ Hwf) as HL. rewrite Nat.sub_0_r in HL.
+    destruct (b <=? a) eqn:E1.
+    { apply Nat.leb_le in E1. split; [constructor|].
+      rewrite fa_slice_alt. replace (b - a) with 0 by lia. reflexivity. }
+    apply Nat.leb_gt in E1.
+    destruct (len <=? a) eqn:E2.
+    { apply Nat.leb_le in E2. split.
+      - constructor; [apply zeros_chunk_wfc | constructor].
+      - unfold flatc. cbn [flat_map]. rewrite zeros_chunk_flat, app_nil_r.
+        rewrite fa_slice_alt. rewrite skipn_all2 by lia. rewrite firstn_nil. cbn [length app].
+        rewrite Nat.sub_0_r. reflexivity. }
+    apply Nat.leb_gt in E2.
+    destruct (IH a b E1 E2) as [Hw Hf].
+    rewrite Nat.max_0_r, Nat.sub_0_r in Hf.
+    cbv zeta. rewrite (sum_len_flatc _ Hw), Hf.
+    rewrite fa_slice_alt.
+    destruct (b - a - length (firstn (b - a) (skipn a (flatl cs))) =? 0) eqn:E3.
+    + apply Nat.eqb_eq in E3. rewrite E3. split; [exact Hw|].
+      rewrite Hf. unfold zeros, ByteVecSpec.zeros. cbn [repeat]. rewrite app_nil_r. reflexivity.
+    + split.
+      * apply Forall_app. split; [exact Hw|]. constructor; [apply zeros_chunk_wfc | constructor].
+      * rewrite flatc_app, Hf. f_equal. unfold flatc. cbn [flat_map].
+        rewrite zeros_chunk_flat. apply app_nil_r.
+  - (* nil *)
+    intros b0 a b _ _. split; [constructor|]. cbn [cslice_go flatl flat_map].
+    rewrite skipn_nil, firstn_nil. reflexivity.
+  - (* cons *)
+    intros b0 c r e Hpos Hc IHc Hr IHr a b Hab Hae.
+    rewrite cslice_go_cons, (next_le_wfl _ _ _ a Hr), flatl_cons.
+    pose proof (cflat_length c Hc) as HL.
+    pose proof (wfl_le _ _ _ Hr) as Hle.
+    assert (Hskip : (match r with [] => false | _ => b0 + clen c <=? a end) = true -> b0 + clen c <= a).
+    { destruct r; [discriminate|]. intros E. apply Nat.leb_le in E. exact E. }
+    assert (Hnoskip : (match r with [] => false | _ => b0 + clen c <=? a end) = false -> a < b0 + clen c).
+    { destruct r.
+      - intros _. apply wfl_nil_inv in Hr. lia.
+      - intros E. apply Nat.leb_gt in E. exact E. }
+    destruct (match r with [] => false | _ => b0 + clen c <=? a end) eqn:Esk.
+    + (* chunk entirely before a *)
+      specialize (Hskip eq_refl). destruct (IHr a b Hab Hae) as [Hw Hf]. split; [exact Hw|].
+      rewrite Hf. rewrite skipn_app. rewrite (skipn_all2 (cflat c)) by lia. cbn [app].
+      rewrite HL. replace (a - b0 - clen c) with (a - (b0 + clen c)) by lia.
+      replace (Nat.max a (b0 + clen c)) with (Nat.max a b0) by lia. reflexivity.
+    + specialize (Hnoskip eq_refl).
+      destruct (b <=? b0) eqn:E1.
+      { apply Nat.leb_le in E1. split; [constructor|].
+        replace (b - Nat.max a b0) with 0 by lia. reflexivity. }
+      apply Nat.leb_gt in E1.
+      destruct (IHr a b Hab Hae) as [Hw Hf].
+      destruct ((a <=? b0) && (b0 + clen c <=? b)) eqn:E2.
+      * (* whole chunk *)
+        apply andb_true_iff in E2. destruct E2 as [E2 E3].
+        apply Nat.leb_le in E2. apply Nat.leb_le in E3.
+        destruct (proj1 leaves_correct c Hc) as [Hlw Hlf].
+        split; [apply Forall_app; split; assumption|].
+        rewrite flatc_app, Hlf, Hf.
+        replace (a - b0) with 0 by lia. replace (a - (b0 + clen c)) with 0 by lia.
+        cbn [skipn]. rewrite firstn_app. rewrite (firstn_all2 (cflat c)) by lia.
+        f_equal. apply firstn_cong. left. lia.
+      * (* part of the chunk *)
+        assert (Hok : slice_ok c (a - b0) (Nat.min (clen c) (b - b0))).
+        { destruct c; cbn [slice_ok clen] in *; [lia | exact I]. }
+        destruct (IHc _ _ Hok) as [Hcw Hcf].
+        split; [apply Forall_app; split; assumption|].
+        rewrite flatc_app, Hcf, Hf.
+        rewrite fa_slice_in by lia.
+        replace (a - (b0 + clen c)) with 0 by lia. cbn [skipn].
+        rewrite skipn_app. replace (a - b0 - length (cflat c)) with 0 by lia. cbn [skipn].
+        rewrite firstn_app, skipn_length.
+        apply andb_false_iff in E2.
+        assert (E2' : b0 < a \/ b < b0 + clen c).
+        { destruct E2 as [E2 | E2]; apply Nat.leb_gt in E2; lia. }
+        f_equal; apply firstn_cong; rewrite ?skipn_length; lia.
+Qed.
+
+Lemma bslice_correct : forall (v : bvec) a b, wf v ->
+  wf (bslice v a b) /\ flat (bslice v a b) = fa_slice (flat v) a b /\ blen (bslice v a b) = b - a.
+Proof.
+  intros v a b Hv. unfold bslice.
+  assert (Hc : wfc (as_chunk None v)) by (constructor; exact Hv).
+  destruct (proj1 cslice_correct _ Hc a b I) as [Hw Hf].
+  destruct (from_leaves_correct _ Hw) as [H1 [H2 H3]].
+  rewrite Hf in H2, H3. rewrite fa_slice_length in H3. auto.
+Qed.
+
+(* chunk[a:b] *)
+Lemma csub_correct : forall (c : chunk) a b, wfc c -> a <= b <= clen c ->
+  wfc (csub c a b) /\ cflat (csub c a b) = firstn (b - a) (skipn a (cflat c)) /\
+  clen (csub c a b) = b - a.
+Proof.
+  intros c a b Hc Hab.
+  assert (Hok : slice_ok c a b) by (destruct c; cbn [slice_ok clen] in *; [lia | exact I]).
+  destruct (proj1 cslice_correct c Hc a b Hok) as [Hw Hf].
+  rewrite fa_slice_in in Hf by (rewrite cflat_length; assumption).
+  destruct c as [sym d s l | t cs len].
+  - cbn [ByteVecModel.csub]. cbn [ByteVecModel.cslice] in Hw, Hf.
+    inversion Hw; subst. unfold flatc in Hf. cbn [flat_map] in Hf. rewrite app_nil_r in Hf.
+    auto.
+  - cbn [ByteVecModel.csub].
+    destruct (from_leaves_correct _ Hw) as [H1 [H2 H3]].
+    unfold as_chunk. split; [constructor; exact H1|]. rewrite cflat_nest, <- flat_flatl.
+    cbn [clen]. rewrite H3, H2, Hf. split; [reflexivity|].
+    rewrite firstn_length, skipn_length, cflat_length by assumption. lia.
+Qed.
 
 End Proofs.
